@@ -323,6 +323,11 @@ func runDisk(ch *simrt.Chooser, opt Options) RunResult {
 	cfg.SwitchPermille = []int{200, 600, 1000}[ch.Draw("switch-rate", 3)]
 	cfg.StallAfterUnlockPermille = 300
 	cfg.KeyOrder = simrt.KeyPolicy(ch.Draw("key-order", int(simrt.NumKeyPolicies)))
+	// (only a tree that reads through os.Open meets this: every Read delivers a drawn part of what was asked for)
+	if ch.Draw("short-reads", 3) > 0 {
+		disk.SetShortReads(true)
+		res.Counters["disk:short-reads-enabled"]++
+	}
 	d := &diskRun{res: &res, disk: disk}
 	out := simrt.Run(ch, cfg, func(s *simrt.Sim) {
 		d.real = s.Draw("disk", 4) == 0
